@@ -229,3 +229,82 @@ def interp(template: str, hs: list, vs: list):
 
 def dialects() -> dict:
     return dialect_mod.DIALECTS
+
+
+# ------------------------------------------------------------------ kind-level driving of the real parser
+
+def _chain(kind: str):
+    c = [kind]
+    if kind == "Language":
+        c.append("Comment")
+    if kind not in ("EOF", "Other"):
+        c.append("Other")
+    return c
+
+
+class StubMatcher(TokenMatcher):
+    """each line's text is the name of its intrinsic kind; `match_K` succeeds iff K is in its chain"""
+
+    def reset(self):
+        pass
+
+
+def _stub(kind):
+    def f(self, token):
+        if token.eof():
+            if kind != "EOF":
+                return False
+            self._set_token_matched(token, "EOF")
+            return True
+        k = token.line._line_text.strip()
+        if kind in _chain(k):
+            self._set_token_matched(token, kind)
+            return True
+        return False
+    return f
+
+
+for _k in KINDS:
+    setattr(StubMatcher, "match_" + _k, _stub(_k))
+
+
+class EventBuilder(AstBuilder):
+    def __init__(self):
+        self.events = []
+        super().__init__()
+
+    def reset(self):
+        self.events = []
+
+    def build(self, token):
+        self.events.append("build:" + token.matched_type)
+
+    def start_rule(self, rule_type):
+        self.events.append("start:" + rule_type)
+
+    def end_rule(self, rule_type):
+        self.events.append("end:" + rule_type)
+
+    def get_result(self):
+        return {}
+
+
+def kinds_run(kinds: list) -> dict:
+    """drive the real Parser on a sequence of line kinds (names)"""
+    text = "".join(k + "\n" for k in kinds)
+    b = EventBuilder()
+    p = Parser(b)
+    out = {}
+    try:
+        p.parse(TokenScanner(text) if not is_existing_path(text) else text, StubMatcher())
+        out["accepts"] = True
+        out["events"] = list(b.events)
+        out["errors"] = []
+    except CompositeParserException as e:
+        out["accepts"] = False
+        out["events"] = None
+        out["errors"] = [x.location["line"] - 1 for x in e.errors]
+        out["messages"] = [str(x) for x in e.errors]
+    except Exception as e:
+        out["crash"] = f"{type(e).__name__}: {e}"
+    return out
